@@ -1,9 +1,11 @@
 ---------------------------- MODULE MC_RngDiscipline ----------------------------
 (* Model-checking harness for RngDiscipline.                                     *)
-(*  _good    : the well-behaved abstract library, all programs of length <= MaxLen *)
+(*  _good_mixedN : the well-behaved abstract library, all programs of length <= N *)
 (*             (no renaming reduction, routines of cost 0/1/2): every clause      *)
 (*             holds, action properties hold, it refines Allowed.                 *)
-(*  _matrix  : every library; which clauses are broken by which misbehaviour is   *)
+(*  _good_canonN : same, one program per renaming class, unit costs.              *)
+(*  _matrix_fK_lenN : every library, K function tokens, programs of length <= N;  *)
+(*             which clauses are broken by which misbehaviour is                  *)
 (*             collected in TLC registers (one worker) and the POSTCONDITION      *)
 (*             demands exactly the table Catches: every clause is violated by     *)
 (*             the misbehaviours it should catch (non-vacuity) and by no other.   *)
